@@ -181,6 +181,7 @@ func runExh(c *sup.Child, b sup.Batch) {
 					}
 				}
 			}
+			r.Evals = total
 			r.AddObs("exh_strings", total)
 			r.AddObs("exh_simple_exact", simple)
 			r.AddObs("exh_error_results", errs)
@@ -518,6 +519,7 @@ func runRand(c *sup.Child, b sup.Batch) {
 					return
 				}
 			}
+			r.Evals = int64(to - from)
 			r.AddObs("rand_strings", int64(to-from))
 			r.AddObs("rand_simple_exact", simple)
 			r.Key = fmt.Sprintf("rand-%d", from)
